@@ -1,2 +1,3 @@
 -- Root of the `RagcModel` library: models, lemmas and property theorems.
 import RagcModel.Model.Kmer
+import RagcModel.Model.LzDiff
